@@ -386,3 +386,212 @@ Proof.
     match goal with E : cur _ = _ |- _ => rewrite E end; cbn [forallb]; bsplit; assumption.
 Qed.
 End WF.
+
+Lemma wf_run P : forall p s s',
+  (forallb data_op p = true \/ forall v, callable v = true -> P v = true) ->
+  vrun_from p s = Ok s' -> WF P s -> WF P s'.
+Proof.
+  induction p as [|o r IH]; intros s s' HP H W; cbn [vrun_from] in H.
+  - inversion H; subst; exact W.
+  - destruct (is_stopped s); [inversion H; subst; exact W|].
+    apply bind_ok in H. destruct H as (s1 & H1 & H).
+    apply (IH s1 s'); [| exact H | eapply wf_step; [| exact H1 | exact W]].
+    + destruct HP as [HP|HP]; [left | right; exact HP].
+      cbn in HP. apply andb_true_iff in HP. tauto.
+    + destruct HP as [HP|HP]; [left | right; exact HP].
+      cbn in HP. apply andb_true_iff in HP. tauto.
+Qed.
+
+Lemma WF_init P : WF P vm_init.
+Proof. constructor; reflexivity. Qed.
+
+(* ================= part 4: the call-free data fragment ================= *)
+(* plain data: no stand-in ever exists, so the VM logs nothing ... *)
+Lemma data_step_log o s s' :
+  data_op o = true -> WF no_standin s -> vstep o s = Ok s' -> log s' = log s.
+Proof.
+  intros Hd [Wc Wm Wme Wh Wl Ws] H.
+  destruct o; try discriminate Hd; cbn [vstep] in H.
+  all: repeat (progress (fk_inv; eqs; subst; simp_proj; vinv_pairs; crack)); try reflexivity.
+  all: repeat match goal with
+       | E : cur ?s = _, H : context[cur ?s] |- _ => rewrite E in H
+       | E : meta ?s = _, H : context[meta ?s] |- _ => rewrite E in H
+       end; cbn in Wc, Wm; repeat rewrite ?andb_false_r, ?andb_false_l in *; try discriminate.
+Qed.
+
+(* ... and fickling emits no statement and creates no variable (SETITEM / SETITEMS always hit a
+   dict node: the variable path needs a stand-in target) *)
+Lemma rel_nil_ref e i : rel [] e (VRef i) -> e = ENode i.
+Proof. intros H. inversion H; subst; [reflexivity | destruct i0; discriminate]. Qed.
+
+Ltac bdestr' :=
+  repeat match goal with
+  | H : _ && _ = true |- _ => apply andb_true_iff in H; destruct H
+  end.
+Ltac kill_standin :=
+  try match goal with W : wfv no_standin (VGlobal _ _) = true |- _ => cbn in W; discriminate W end;
+  try match goal with W : wfv no_standin (VObj _) = true |- _ => cbn in W; discriminate W end.
+Ltac dict_node Hs Rh :=
+  match goal with X : rel [] _ (VRef _) |- _ => apply rel_nil_ref in X; subst end;
+  match goal with
+  | Hv : match vget_obj ?i ?st with _ => _ end = _ |- _ =>
+      destruct (vget_obj i st) as [[| |kvs']|] eqn:G; try discriminate Hv;
+      unfold vget_obj in G; simp_proj; unfold get_node in Hs; simp_proj;
+      let En := fresh "En" in
+      destruct (nth_error (nodes _) i) as [nd|] eqn:En;
+      [ pose proof (Forall2_nth_error _ _ _ Rh _ _ _ En G) as Rn; inversion Rn; subst;
+        inversion Hs; subst; simp_proj; auto
+      | rewrite (lookup_none _ _ _ _ Rh En) in G; discriminate G ]
+  end.
+
+Lemma data_step_quiet o f v f' v' :
+  data_op o = true -> R [] f v -> WF no_standin v ->
+  step o f = Ok f' -> vstep o v = Ok v' ->
+  ctr f' = ctr f /\
+  (body f' = body f \/ exists e, o = OStop /\ body f' = SResult e :: body f).
+Proof.
+  intros Hd [Rs Rm Rh Re Rc Rv Rp] [Wc Wm Wme Wh Wl Ws] Hs Hv.
+  destruct o; try discriminate Hd; cbn [step] in Hs.
+  all: try solve [repeat (progress (fk_inv; eqs; subst; simp_proj; inv_pairs; crack));
+                  simp_proj; split; [reflexivity | first [left; reflexivity | right; eauto]]].
+  - (* SETITEM *)
+    cbn [vstep] in Hv. sprep0. use_stack. inv_rs.
+    match goal with E : cur v = _ |- _ => rewrite E in Wc end. cbn [forallb] in Wc. bdestr'.
+    match type of Hv with match ?x with _ => _ end = _ => destruct x; try discriminate Hv; kill_standin end.
+    dict_node Hs Rh.
+  - (* SETITEMS *)
+    cbn [vstep] in Hv. sprep0. slice. use_stack. inv_rs.
+    match goal with E : meta v = _ |- _ => rewrite E in Wm end. cbn [forallb] in Wm. bdestr'.
+    match type of Hv with match ?x with _ => _ end = _ => destruct x; try discriminate Hv; kill_standin end.
+    dict_node Hs Rh.
+Qed.
+
+Record DI (f : fk) (v : vm) : Prop := mkDI {
+  DI_R : R [] f v;
+  DI_wf : WF no_standin v;
+  DI_log : log v = [];
+  DI_body : match vstopped v with
+            | None => body f = []
+            | Some _ => exists e, body f = [SResult e]
+            end
+}.
+
+Lemma DI_init : DI (fk_init 0) vm_init.
+Proof. constructor; [exact (R_init 0) | apply WF_init | reflexivity | reflexivity]. Qed.
+
+Lemma DI_step o f v f' v' :
+  data_op o = true -> vstopped v = None -> DI f v ->
+  step o f = Ok f' -> vstep o v = Ok v' -> DI f' v'.
+Proof.
+  intros Hd NS [HR HW HL HB] Hs Hv. rewrite NS in HB.
+  destruct (lockstep _ _ _ _ _ _ NS HR Hs Hv) as (al' & _ & HR').
+  destruct (data_step_quiet _ _ _ _ _ Hd HR HW Hs Hv) as [Hc Hb].
+  assert (al' = []) as ->.
+  { pose proof (R_ctr _ _ _ HR') as C'. pose proof (R_ctr _ _ _ HR) as C.
+    rewrite Hc, C in C'. destruct al'; [reflexivity | discriminate]. }
+  constructor.
+  - exact HR'.
+  - eapply wf_step; [left; exact Hd | exact Hv | exact HW].
+  - rewrite (data_step_log _ _ _ Hd HW Hv). exact HL.
+  - pose proof (R_stop _ _ _ HR') as Rp.
+    destruct (vstopped v') as [x|].
+    + destruct Rp as (_ & e & b & Eb & _).
+      destruct Hb as [Hb|(e' & _ & Hb)]; rewrite HB in Hb; rewrite Hb in Eb.
+      * discriminate.
+      * exists e'. exact Hb.
+    + destruct Hb as [Hb|(e' & Ho & Hb)]; [rewrite Hb; exact HB|].
+      subst o. cbn [step] in Hs. apply bind_ok in Hs. destruct Hs as ([e0 f0] & _ & Hs).
+      inversion Hs; subst. cbn in Rp. discriminate.
+Qed.
+
+Lemma DI_run : forall p f v f' v',
+  forallb data_op p = true -> DI f v ->
+  run_from p f = Ok f' -> vrun_from p v = Ok v' -> DI f' v'.
+Proof.
+  induction p as [|o r IH]; intros f v f' v' Hd D Hs Hv; cbn [run_from vrun_from] in *.
+  - inversion Hs; inversion Hv; subst. exact D.
+  - pose proof (R_stopped_agree _ _ _ (DI_R _ _ D)) as St. rewrite <- St in Hv.
+    destruct (stopped f) eqn:Sf.
+    + inversion Hs; inversion Hv; subst. exact D.
+    + apply bind_ok in Hs. destruct Hs as (f1 & S1 & Hs).
+      apply bind_ok in Hv. destruct Hv as (v1 & V1 & Hv).
+      assert (vstopped v = None) as NS.
+      { unfold is_stopped in St. destruct (vstopped v); [discriminate | reflexivity]. }
+      cbn in Hd. apply andb_true_iff in Hd. destruct Hd as [Hd1 Hd2].
+      eapply IH; [exact Hd2 | | exact Hs | exact Hv].
+      eapply DI_step; eauto.
+Qed.
+
+(* an acyclic VM value is denoted by an expression that prints within the same depth *)
+Section Acyclic.
+Variable ns : list node.
+Variable h : list hobj.
+Variable bound : nat.
+Hypothesis Hheap : Forall2 (rel_node []) ns h.
+
+Lemma acyclic_fits_list n :
+  (forall e v, same_shape n h h v v = true -> rel [] e v -> fits n ns bound e = true) ->
+  forall es vs, Forall2 (rel []) es vs -> forallb2 (same_shape n h h) vs vs = true ->
+  forallb (fits n ns bound) es = true.
+Proof.
+  intros IH es vs F. induction F as [|e v es vs Hr F IHF]; cbn; [reflexivity|].
+  intros E. apply andb_true_iff in E. destruct E as [E1 E2].
+  rewrite (IH _ _ E1 Hr), (IHF E2). reflexivity.
+Qed.
+
+Lemma acyclic_fits_pairs n :
+  (forall e v, same_shape n h h v v = true -> rel [] e v -> fits n ns bound e = true) ->
+  forall es vs, Forall2 (rel_pair []) es vs ->
+  forallb2 (fun p q : val * val => same_shape n h h (fst p) (fst q) && same_shape n h h (snd p) (snd q))
+           vs vs = true ->
+  forallb (fun kv => fits n ns bound (fst kv) && fits n ns bound (snd kv)) es = true.
+Proof.
+  intros IH es vs F. induction F as [|[k x] [kv xv] es vs [Hk Hx] F IHF]; cbn; [reflexivity|].
+  intros E. apply andb_true_iff in E. destruct E as [E1 E2]. apply andb_true_iff in E1. destruct E1 as [Ek Ex].
+  cbn in Hk, Hx. rewrite (IH _ _ Ek Hk), (IH _ _ Ex Hx), (IHF E2). reflexivity.
+Qed.
+
+Lemma acyclic_fits : forall n e v,
+  same_shape n h h v v = true -> rel [] e v -> fits n ns bound e = true.
+Proof.
+  induction n as [|n IH]; intros e v S Hr; [discriminate|].
+  destruct Hr as [c|m nm|es vs F|i|i x Hx|es vs F]; cbn [same_shape] in S.
+  - reflexivity.
+  - reflexivity.
+  - cbn [fits]. eapply acyclic_fits_list; eauto.
+  - cbn [fits]. destruct (nth_error ns i) as [nd|] eqn:En.
+    + destruct (node_lookup _ _ _ Hheap _ _ En) as (o & Eo & Ro). rewrite Eo in S.
+      destruct Ro as [es vs F|es vs F|kvs kvs' F].
+      * eapply acyclic_fits_list; eauto.
+      * eapply acyclic_fits_list; eauto.
+      * eapply acyclic_fits_pairs; eauto.
+    + rewrite (lookup_none _ _ _ _ Hheap En) in S. discriminate.
+  - destruct i; discriminate.
+  - cbn. eapply acyclic_fits_list; eauto.
+Qed.
+End Acyclic.
+
+(* plain data, any length / nesting / sharing: the decompiled program evaluates, logs nothing, and
+   its result unfolds to the same tree as the VM's value *)
+Theorem plain_data_eval p n f v x :
+  forallb data_op p = true -> run p = Ok f -> vrun p = Ok v -> vstopped v = Some x ->
+  same_shape n (heap v) (heap v) x x = true ->
+  exists st r, py_run n p = Ok st /\ presult st = Some r /\ plog st = [] /\ log v = [] /\
+               same_shape n (heap v) (pheap st) x r = true.
+Proof.
+  intros Hd Hs Hv Hx Hac.
+  pose proof (DI_run p _ _ _ _ Hd DI_init Hs Hv) as [HR HW HL HB].
+  rewrite Hx in HB. destruct HB as (e & Eb).
+  pose proof (R_stop _ _ _ HR) as Rp. rewrite Hx in Rp. destruct Rp as (_ & e' & b & Eb' & Hr).
+  rewrite Eb in Eb'. inversion Eb'; subst e' b.
+  pose proof (R_heap _ _ _ HR) as Rh.
+  pose proof (W_stop _ _ HW) as Wx. rewrite Hx in Wx.
+  assert (fits n (nodes f) 0 e = true) as Hf by (eapply acyclic_fits; eauto).
+  destruct (eval_denotes no_standin [] (nodes f) (heap v) [] [] 0 Rh (W_heap _ _ HW)) with
+    (n := n) (e := e) (v := x) (hp := @nil hobj) as (r & hp' & E & S); auto.
+  - intros i y Hi. lia.
+  - intros m nm Hc. discriminate.
+  - unfold py_run. rewrite Hs. cbn [bind]. unfold py_eval_fk. rewrite Eb. cbn [rev app exec_module exec_stmt].
+    unfold peval. cbn [pst_init pimports pvars pheap]. rewrite E. cbn.
+    eexists _, r. repeat split; auto.
+Qed.
